@@ -311,8 +311,8 @@ func formatInto(sb *strings.Builder, format string, args []string) (int, error) 
 				sb.WriteByte(c)
 			case '0', '1', '2', '3', '4', '5', '6', '7':
 				digits := readDigits(3, false)
-				// if digits don't fit in 8 bits, 0xff via strconv
-				n, _ := strconv.ParseUint(digits, 8, 8)
+				// three octal digits can exceed 8 bits; keep the low byte
+				n, _ := strconv.ParseUint(digits, 8, 16)
 				sb.WriteByte(byte(n))
 			case 'x', 'u', 'U':
 				i++
